@@ -596,7 +596,14 @@ class AsyncServer:
                     asyncio.TimeoutError,
                     TimeoutError,
                 ):  # should be the first one, but official doc referrs to the second
+                    self._pipeline_notfull.notify()  # see below
                     raise ServerBacklogFull(len(pipeline), perf_counter() - t0)
+                except asyncio.CancelledError:
+                    # This waiter may have been notified already (the notification and the
+                    # cancellation or timeout arrive in the same iteration of the event loop);
+                    # pass the notification on, or the room it announced goes to nobody.
+                    self._pipeline_notfull.notify()
+                    raise
 
             # Record the request before it becomes visible to the workers:
             # the gather thread pops the ledger from another thread, so a result
